@@ -76,14 +76,15 @@ func (s *Service) Proposal(ctx context.Context,
 				} else {
 					providerGraffiti = bytes.ReplaceAll(providerGraffiti, []byte("{{CLIENT}}"), []byte(nodeClientResponse.Data))
 				}
-				if len(providerGraffiti) > 32 {
-					providerGraffiti = providerGraffiti[0:32]
-				}
+				// The expanded graffiti can be shorter or longer than the 32 bytes available:
+				// copy() truncates if it is longer, and leaves the remainder zero if it is shorter.
+				var graffiti [32]byte
+				copy(graffiti[:], providerGraffiti)
 				// Replace entire opts structure so the mutated graffiti does not leak to other providers.
 				opts = &api.ProposalOpts{
 					Slot:                   opts.Slot,
 					RandaoReveal:           opts.RandaoReveal,
-					Graffiti:               [32]byte(providerGraffiti),
+					Graffiti:               graffiti,
 					SkipRandaoVerification: opts.SkipRandaoVerification,
 				}
 			}
